@@ -80,4 +80,49 @@ theorem C14_truncate_frame (it : Ty) (l : LenTy) (n : Nat) (data : Slice) (b' : 
         · cases h
   | err e => simp [hs] at h
   | fault f => simp [hs] at h
+
+/-- the walker places the fields of a struct or variant one after the other: a later field starts at or after the end of an
+earlier one (alignment padding lies between them) -/
+theorem posList_disjoint : ∀ (l : List Dict) (q i j Pi Pj : Nat) (di : Dict), (∀ x ∈ l, 0 < x.align) → i < j →
+    l[i]? = some di → (posList l q)[i]? = some Pi → (posList l q)[j]? = some Pj → Pi + di.ssize ≤ Pj := by
+  intro l
+  induction l with
+  | nil => intro q i j Pi Pj di _ _ h; simp at h
+  | cons a l ih =>
+    intro q i j Pi Pj di hpos hij hdi hPi hPj
+    cases l with
+    | nil =>
+      -- one field: there is no `j`
+      have : j = 0 := by
+        cases j with
+        | zero => rfl
+        | succ j => simp [posList] at hPj
+      omega
+    | cons b l' =>
+      cases j with
+      | zero => omega
+      | succ j =>
+        simp only [posList, List.getElem?_cons_succ] at hPj
+        cases i with
+        | zero =>
+          simp only [posList, List.getElem?_cons_zero, Option.some.injEq] at hPi hdi
+          subst hPi hdi
+          have hge := posList_ge (b :: l') (ceilMul (q + a.ssize) b.align) j Pj (fun x hx => hpos x (by simp [hx])) hPj
+          have := le_ceilMul (x := q + a.ssize) (hpos b (by simp))
+          omega
+        | succ i =>
+          simp only [posList, List.getElem?_cons_succ] at hPi
+          simp only [List.getElem?_cons_succ] at hdi
+          exact ih _ i j Pi Pj di (fun x hx => hpos x (by simp [hx])) (by omega) hdi hPi hPj
+
+/-- **C14 (sibling fields).** Writing the image of field `i` of a struct or enum variant at its position changes no byte of
+any other field `j` (before or after it), for every field list. -/
+theorem C14_field_write_frame (l : List Dict) (hpos : ∀ x ∈ l, 0 < x.align) (q i j Pi Pj : Nat) (di dj : Dict) (hij : i ≠ j)
+    (hdi : l[i]? = some di) (hdj : l[j]? = some dj) (hPi : (posList l q)[i]? = some Pi) (hPj : (posList l q)[j]? = some Pj)
+    (bs v r : Bytes) (hv : v.length = di.ssize) (hw : writeAt bs Pi v = .ok r) :
+    (r.drop Pj).take dj.ssize = (bs.drop Pj).take dj.ssize := by
+  apply writeAt_frame hw
+  rcases Nat.lt_or_gt_of_ne hij with h | h
+  · right; rw [hv]; exact posList_disjoint l q i j Pi Pj di hpos h hdi hPi hPj
+  · left; exact posList_disjoint l q j i Pj Pi dj hpos h hdj hPj hPi
 end FV.Props
